@@ -12,8 +12,8 @@ transferred here as a demonstration (the others transfer the same way, by rewrit
   no index out of range, no nil dereference, no loop fuel exhaustion);
 * C18 — on a defective vector the generated parser returns exactly the documented error value (every defect of
   `Spec.Defect`, including the general "misplaced" `move i j`; v2.0 with the `afterEnv` restriction of finding F3),
-  and the unconditional header clause: every byte string not beginning with `CVSS:3.x/` (v3) / `CVSS:4.0` (v4.0)
-  gets ErrInvalidCVSSHeader from the generated parser, and only those.
+  and the unconditional header clause: every byte string not beginning with `CVSS:3.x/` (v3) / being neither the bare
+  `CVSS:4.0` nor beginning with `CVSS:4.0/` (v4.0) gets ErrInvalidCVSSHeader from the generated parser, and only those.
 -/
 namespace ParseTie
 open Model GenParse
@@ -79,12 +79,21 @@ theorem C18_header31 (s : Bytes) : GenP31.ParseVector s = .err eHeader ↔ ¬ (S
   rw [← ofGo_err_iff dec31, show ofGo dec31 (GenP31.ParseVector s) = parse31 s from v31 s]; exact C18.header31_iff s
 theorem C18_header30 (s : Bytes) : GenP30.ParseVector s = .err eHeader ↔ ¬ (Spec.V3.header30 ++ [47]) <+: s := by
   rw [← ofGo_err_iff dec30, show ofGo dec30 (GenP30.ParseVector s) = parse30 s from v30 s]; exact C18.header30_iff s
-theorem C18_header40 (s : Bytes) : GenP40.ParseVector s = .err eHeader ↔ ¬ Spec.V4.header <+: s := by
+theorem C18_header40 (s : Bytes) :
+    GenP40.ParseVector s = .err eHeader ↔ ¬ (s = Spec.V4.header ∨ (Spec.V4.header ++ [47]) <+: s) := by
   rw [← ofGo_err_iff GenParse40.dec40, show ofGo GenParse40.dec40 (GenP40.ParseVector s) = parse40 s from v40 s]
   exact C18.header40_iff s
-/-- `CVSS:4.0` followed directly by a byte other than `/`: ErrInvalidMetricValue from the generated parser -/
+/-- in the specification's terms: the part before the first `/` is not `CVSS:4.0` -/
+theorem C18_header40_spec (s : Bytes) : GenP40.ParseVector s = .err eHeader ↔ Spec.headOf s ≠ Spec.V4.header := by
+  rw [← ofGo_err_iff GenParse40.dec40, show ofGo GenParse40.dec40 (GenP40.ParseVector s) = parse40 s from v40 s]
+  exact C18.header40_spec s
+/-- `CVSS:4.0` followed directly by a byte other than `/`: ErrInvalidCVSSHeader from the generated parser
+    (finding F4; against the unrepaired source this is ErrInvalidMetricValue and the theorem does not compile) -/
 theorem C18_v40_header_then_junk (c : Nat) (r : Bytes) (hc : c ≠ 47) :
-    GenP40.ParseVector (Spec.V4.header ++ c :: r) = .err eValue :=
+    GenP40.ParseVector (Spec.V4.header ++ c :: r) = .err eHeader :=
   (ofGo_err_iff GenParse40.dec40 _ _).mp ((v40 _).trans (C18.v40_header_then_junk c r hc))
+/-- the bare `CVSS:4.0`: ErrTooShortVector from the generated parser -/
+theorem C18_v40_header_only : GenP40.ParseVector Spec.V4.header = .err eTooShort :=
+  (ofGo_err_iff GenParse40.dec40 _ _).mp ((v40 _).trans C18.v40_header_only)
 
 end ParseTie
